@@ -178,3 +178,234 @@ func (c *Ctx) vTableAll(y *YGen, specs []*corpus.Spec, wantSound, wantComplete b
 		c.vTable(s, r.Dump, tab, wantSound, wantComplete && s.HasTag("lalr1"), dir)
 	}
 }
+
+// classifyLALR tags every spec whose Horn LALR(1) model has no conflict cell as "lalr1"
+// (random grammars carry no classification of their own).
+func (c *Ctx) classifyLALR(y *YGen, specs []*corpus.Spec) {
+	var todo []*corpus.Spec
+	for _, s := range specs {
+		if s.HasTag("random") && !s.HasTag("lalr1") && !s.HasTag("conflict") {
+			todo = append(todo, s)
+		}
+	}
+	if len(todo) == 0 {
+		return
+	}
+	dumps, err := c.DumpAll(y, todo)
+	if err != nil {
+		c.Inconclusive("%v", err)
+		return
+	}
+	dir := c.Scratch()
+	for _, s := range todo {
+		r := dumps[s.Name]
+		if !r.OK || r.Dump == nil {
+			continue
+		}
+		h := NewHorn()
+		GrammarFacts(h, r.Dump)
+		LALRSpec(h)
+		h.Rel("conflictCell", 2)
+		h.Rule("(conflictCell q t)", "(goto q t q2)", "(term t)", "(la q r t)")
+		h.Rule("(conflictCell q t)", "(la q r t)", "(la q r2 t)", "(rlt r r2)")
+		h.Query("conflictCell")
+		res, err := h.Run("/usr/bin/z3", dir, 60*time.Second)
+		if err != nil {
+			continue
+		}
+		if !res.Sat["conflictCell"] {
+			s.Tags = append(s.Tags, "lalr1")
+		} else {
+			s.Tags = append(s.Tags, "conflict")
+		}
+	}
+}
+
+// resolutionOracle (C04): in the emitted dense table every cell with exactly two candidate
+// actions holds the action the declarations demand: higher level wins, equal level follows
+// the associativity, no applicable precedence: shift resp. the earlier rule.
+func (c *Ctx) resolutionOracle(s *corpus.Spec, d *Dump, table [][]int, dir string) {
+	h := NewHorn()
+	GrammarFacts(h, d)
+	LALRSpec(h)
+	for _, rel := range []string{"cellShift", "cellRed"} {
+		h.Rel(rel, 3)
+	}
+	h.Rel("cellErr", 2)
+	h.Rel("cellAcc", 2)
+	for q, row := range table {
+		for x, v := range row {
+			switch {
+			case v == d.ErrorCode:
+				h.Fact("cellErr", q, x)
+			case v == d.AcceptCode:
+				h.Fact("cellAcc", q, x)
+			case v > 0:
+				h.Fact("cellShift", q, x, v)
+			case v < 0:
+				h.Fact("cellRed", q, x, -v)
+			}
+		}
+	}
+	tokPrec, tokAssoc, rulePrec := specPrec(s)
+	// comparison facts between every rule and every terminal that both have a level
+	for _, rel := range []string{"rgt", "rlt2", "reqL", "reqR", "reqN", "noPrec"} {
+		h.Rel(rel, 2)
+	}
+	for k := 1; k < len(rulePrec); k++ {
+		for ref, lvl := range tokPrec {
+			id := d.symByRef(ref)
+			if id < 0 {
+				continue
+			}
+			switch {
+			case rulePrec[k] == 0 || lvl == 0:
+			case rulePrec[k] > lvl:
+				h.Fact("rgt", k, id)
+			case rulePrec[k] < lvl:
+				h.Fact("rlt2", k, id)
+			default:
+				switch tokAssoc[ref] {
+				case "left":
+					h.Fact("reqL", k, id)
+				case "right":
+					h.Fact("reqR", k, id)
+				default:
+					h.Fact("reqN", k, id)
+				}
+			}
+		}
+	}
+	// noPrec(r,t): the pair has no applicable precedence
+	for k := 1; k < len(rulePrec); k++ {
+		for _, sym := range d.Symbols {
+			if sym.IsNT || sym.ID < 1 {
+				continue
+			}
+			lvl := 0
+			for ref, l := range tokPrec {
+				if d.symByRef(ref) == sym.ID {
+					lvl = l
+				}
+			}
+			if rulePrec[k] == 0 || lvl == 0 {
+				h.Fact("noPrec", k, sym.ID)
+			}
+		}
+	}
+	h.Rel("precRule", 1)
+	for k := 1; k < len(rulePrec); k++ {
+		if rulePrec[k] > 0 {
+			h.Fact("precRule", k)
+		}
+	}
+	h.Rel("shiftc", 3)
+	h.Rel("sr", 4)
+	h.Rel("rr", 4)
+	h.Rel("multi", 2)
+	h.Rule("(shiftc q t q2)", "(goto q t q2)", "(term t)")
+	h.Rule("(sr q t r q2)", "(shiftc q t q2)", "(la q r t)")
+	h.Rule("(rr q t r r2)", "(la q r t)", "(la q r2 t)", "(rlt r r2)")
+	h.Rule("(multi q t)", "(shiftc q t q2)", "(rr q t r r2)")
+	h.Rule("(multi q t)", "(rr q t r r2)", "(rr q t r2 x)")
+	h.Rel("wrong", 2)
+	// shift/reduce
+	h.Rule("(wrong q t)", "(sr q t r q2)", "(not (multi q t))", "(rgt r t)", "(not (cellRed q t r))")
+	h.Rule("(wrong q t)", "(sr q t r q2)", "(not (multi q t))", "(rlt2 r t)", "(not (cellShift q t q2))")
+	h.Rule("(wrong q t)", "(sr q t r q2)", "(not (multi q t))", "(reqL r t)", "(not (cellRed q t r))")
+	h.Rule("(wrong q t)", "(sr q t r q2)", "(not (multi q t))", "(reqR r t)", "(not (cellShift q t q2))")
+	h.Rule("(wrong q t)", "(sr q t r q2)", "(not (multi q t))", "(reqN r t)", "(not (cellErr q t))")
+	h.Rule("(wrong q t)", "(sr q t r q2)", "(not (multi q t))", "(noPrec r t)", "(not (cellShift q t q2))")
+	// reduce/reduce where at most one rule has precedence: the earlier rule
+	h.Rule("(wrong q t)", "(rr q t r r2)", "(not (multi q t))", "(not (precRule r))", "(not (cellRed q t r))")
+	h.Rule("(wrong q t)", "(rr q t r r2)", "(not (multi q t))", "(not (precRule r2))", "(not (cellRed q t r))")
+	h.Rel("twoWay", 2)
+	h.Rule("(twoWay q t)", "(sr q t r q2)", "(not (multi q t))")
+	h.Rule("(twoWay q t)", "(rr q t r r2)", "(not (multi q t))")
+	h.Query("wrong")
+	h.Query("twoWay")
+	res, err := h.Run("/usr/bin/z3", dir, 120*time.Second)
+	if err != nil {
+		c.Inconclusive("%s: %v", s.Name, err)
+		return
+	}
+	c.hornStats(h, res, 1)
+	c.addExtraInt("two_way_conflict_cells_decided", len(res.Tuples["twoWay"]))
+	if len(res.Tuples["twoWay"]) > 0 {
+		c.MarkDistinct("resolution " + s.Name)
+	}
+	for i, t := range res.Tuples["wrong"] {
+		if i >= 2 {
+			break
+		}
+		cell := "?"
+		if t[0] < len(table) && t[1] < len(table[t[0]]) {
+			cell = fmt.Sprint(table[t[0]][t[1]])
+		}
+		what := fmt.Sprintf("grammar %s: the conflict in state %s on %s is not resolved the way the declarations demand (table entry %s)", s.Name, d.stateText(t[0]), d.symName(t[1]), cell)
+		key := "resolution:" + s.Name + ":" + d.stateText(t[0]) + ":" + d.symName(t[1])
+		path := c.writeHornReplay(s, "resolution", key, what, YRes{})
+		c.Report(key, what, path)
+	}
+}
+
+// resolutionAll runs the resolution oracle over grammars with precedence declarations.
+func (c *Ctx) resolutionAll(y *YGen, specs []*corpus.Spec) {
+	var withPrec []*corpus.Spec
+	for _, s := range specs {
+		if len(s.Prec) > 0 || s.HasTag("conflict-sr") || s.HasTag("conflict-rr") {
+			withPrec = append(withPrec, s)
+		}
+	}
+	if len(withPrec) == 0 {
+		return
+	}
+	g, err := c.Generate(y, withPrec, []string{"pair-p", "pair-u"}, nil)
+	if err != nil {
+		c.Inconclusive("%v", err)
+		return
+	}
+	dir := c.Scratch()
+	for _, s := range g.Specs {
+		r := g.Results[genKey(s.Name, "pair-p")]
+		if !r.OK || r.Dump == nil {
+			continue
+		}
+		tab := c.denseTable(g, s)
+		if tab == nil {
+			continue
+		}
+		c.resolutionOracle(s, r.Dump, tab, dir)
+	}
+}
+
+// denseTable evaluates the emitted StateActionArray of the pair-u package in the engine.
+func (c *Ctx) denseTable(g *GenSet, s *corpus.Spec) [][]int {
+	fn := g.Eng.Func(g.PkgPath(s.Name, "pair-u"), "VerifDenseTable")
+	if fn == nil {
+		c.Inconclusive("%s: VerifDenseTable not found", s.Name)
+		return nil
+	}
+	var tab [][]int
+	cfg := g.Eng.Cfg
+	cfg.Workers = 1
+	cfg.SamplePaths = 0
+	rep := g.Eng.ExploreFunc(s.Name+" dense table", func(st *gosym.State) {
+		res, pi := st.CallFunc(fn, nil)
+		if pi != nil {
+			return
+		}
+		for _, row := range res.(gosym.Slice) {
+			var rr []int
+			for _, v := range row.(gosym.Slice) {
+				rr = append(rr, int(v.(*gosym.Term).Int()))
+			}
+			tab = append(tab, rr)
+		}
+	}, &cfg)
+	if len(rep.Problems) > 0 || len(tab) == 0 {
+		c.Inconclusive("%s: could not evaluate the emitted table: %v", s.Name, rep.Problems)
+		return nil
+	}
+	return tab
+}
